@@ -12,7 +12,8 @@ from . import yee_api as Y
 RULE = ("scenes from the seed, each built in all three cyclic orientations through the public API (SimulationVolume, "
         "BoundaryConfig/boundary_objects_from_config, sources, detectors, place_objects) and run with run_fdtd for 4..12 "
         "steps: 4..8 cells per axis (pairwise different where possible), per face none/periodic/pec/pmc/pml (PML "
-        "thickness 2..3, optional kappa grading), uniform or non-uniform grid (widths rotated), 1..2 sources out of "
+        "thickness 2..3, optional kappa grading, or explicit sigma/kappa/alpha start/end/order per face — different on the two "
+        "faces of an axis, always so in the first quick scene), uniform or non-uniform grid (widths rotated), 1..2 sources out of "
         "UniformPlaneSource / GaussianPlaneSource (every propagation axis, both directions, oblique transverse "
         "polarisation vector rotated, non-zero azimuth_angle / elevation_angle of both signs: unchanged by the relabelling) and PointDipoleSource (electric/magnetic, polarisation index and position "
         "rotated, tilted by azimuth/elevation as well) with CW or pulse profile, FieldDetector and PoyntingFluxDetector without exact interpolation "
@@ -55,6 +56,7 @@ def rot_case(c):
     d["faces"] = {rot_face(k): v for k, v in c["faces"].items()}
     d["thick"] = {rot_face(k): v for k, v in c["thick"].items()}
     d["kappa"] = {rot_face(k): v for k, v in c["kappa"].items()}
+    d["pmlpar"] = {rot_face(k): dict(v) for k, v in c.get("pmlpar", {}).items()}
     d["widths"] = None if c["widths"] is None else rl(c["widths"])
     srcs = []
     for s in c["sources"]:
@@ -151,6 +153,21 @@ def gen_case(rng, thorough, force=None):
         top = force.get("max_n", 8)
         shape[rng.randint(0, 2)] = top if shape[0] != top else top - 1
     c["shape"], c["faces"], c["thick"], c["kappa"] = shape, faces, thick, kappa
+    # explicit per-face PML grading (every BoundaryConfig parameter of that face), different on the two faces of an axis: the
+    # per-face getters of BoundaryConfig (get_sigma_dict, get_order_dict, ...) are then exercised face by face, and the
+    # asymmetric axis visits x, y and z across the three orientations
+    pmlpar = {}
+    explicit = force.get("pml_explicit", rng.chance(0.5))
+    for ax in range(3):
+        for side in (0, 1):
+            k = FACES[2 * ax + side]
+            if faces[k] == "pml" and explicit:
+                pmlpar[k] = {"sigma_start": rng.uniform(0.0, 2.0e4), "sigma_end": rng.uniform(2.0e5, 8.0e5),
+                             "sigma_order": [2.0, 4.0][side] if faces[FACES[2 * ax + 1 - side]] == "pml" else rng.choice([2.0, 3.0, 4.0]),
+                             "kappa_start": rng.choice([1.0, 1.2]), "kappa_end": rng.uniform(1.0, 3.0),
+                             "kappa_order": rng.choice([1.0, 2.0, 3.0]), "alpha_start": rng.uniform(50.0, 200.0),
+                             "alpha_end": rng.uniform(0.0, 50.0), "alpha_order": rng.choice([1.0, 2.0])}
+    c["pmlpar"] = pmlpar
     c["widths"] = None
     if force.get("nonuniform", rng.chance(0.3)):
         c["widths"] = [[50e-9 * rng.uniform(0.7, 1.5) for _ in range(n)] for n in shape]
@@ -308,6 +325,8 @@ def build(c):
         kw[f"thickness_grid_{kk}"] = c["thick"][k]
         if c["faces"][k] == "pml" and c["kappa"][k] != 1.0:
             kw[f"kappa_end_{kk}"] = c["kappa"][k]
+        for par, val in c.get("pmlpar", {}).get(k, {}).items():
+            kw[f"{par}_{kk}"] = float(val)
     bc = f.BoundaryConfig(**kw)
     bd, cons = f.boundary_objects_from_config(bc, vol)
     objs, cs = [vol], []
@@ -716,6 +735,7 @@ def forced(rng):
     p4 = rng.shuffle([("periodic", "periodic"), ("none", "none"), rng.choice([("pec", "none"), ("none", "pmc")])])
     return [
         dict(pairs=p1, sources=["uniform", "dipole_e"], src_axis=[a, None], src_dir=["+", None], mat_mode="arrays", tilt=True,
+             pml_explicit=True,
              eps_tier=9, sig_e_full=True, mu_tier=rng.choice([0, 3]), sig_h_full=False, nonuniform=False),
         dict(pairs=p2, sources=["gauss", rng.choice(["dipole_e", "dipole_m"])], src_axis=[b, None], src_dir=["-", None], tilt=True,
              mat_mode="arrays", eps_tier=rng.choice([1, 3]), sig_e_full=False, mu_tier=9, sig_h_full=True),
@@ -737,6 +757,8 @@ def counters(c):
          "sig_h_full9": c.get("sig_h_full", False), "init_fields": c["init_fields"], "steps": c["steps"]}
     for k, v in c["faces"].items():
         d["face_" + v] = True
+    if c.get("pmlpar"):
+        d["pml_explicit_params_faces"] = len(c["pmlpar"])
     if any(v != 1.0 for v in c["kappa"].values()):
         d["pml_kappa_graded"] = True
     for s in c["sources"]:
